@@ -1184,7 +1184,7 @@ func run0(c Case) kit.Result {
 var spec = kit.Spec[Case]{
 	Prop: "C12", Name: "main",
 	Rule:  "random DAG (<=30, thorough <=40 nodes; dag-pb + raw leaves; sharing; missing/undecodable/already-local blocks) walked by Walk/WalkDepth/FetchGraph/FetchGraphWithDepthLimit with depth -1..6, concurrency none/default/1..32 and an ordered list of 0..3 error-handling options plus SkipRoot/WithProvider, compared with a reference BFS; non-trivial = a failing block is reached, or >=2 error-handling options are composed, or a node is linked at two different depths",
-	Quick: 2500, Thorough: 12000,
+	Quick: 1500, Thorough: 12000,
 	Gen: gen, Run: run, Journal: true,
 }
 
